@@ -10,6 +10,7 @@ from .. import framework as fw
 
 HEADER = ('From FJ Require Import Lib.Base Spec.MachineSpec Spec.IOSpec Model.Devices.\n'
           'Local Open Scope N_scope.\n')
+H63 = 'From Coq Require Import Uint63.\n' + HEADER + 'Local Open Scope uint63_scope.\n'     # numerals are primitive integers
 PACK_NAMES = {0: 'FixedIO', 1: 'StandardIO(output_verbose=False)', 2: 'StandardIO(output_verbose=True)', 3: 'KeyboardIO'}
 OPN = {0: 'read_bit()', 1: 'write_bit(False)', 2: 'write_bit(True)', 3: 'get_output()',
        4: 'get_output(allow_incomplete_output=True)'}
@@ -51,6 +52,16 @@ def events_lit(evs):
     return '[' + ';'.join(f'({zlit(t)},{blit(d)},{zlit(k)})' for t, d, k in evs) + ']'
 
 
+def ilist(xs):
+    return '[' + ';'.join(str(int(x)) for x in xs) + ']'
+
+
+def obs63(obs):
+    """observations for the *63 check functions: small codes as primitive integers, byte strings separately"""
+    codes = [obs_code(o) for o in obs]
+    return ilist(c if c < 15 else 15 for c in codes) + ',[' + ';'.join(hex(c) for c in codes if c >= 15) + ']%N'
+
+
 def nlists(out):
     """all [..] groups of numbers printed by Coq"""
     return [[int(x) for x in re.findall(r'\d+', g)] for g in re.findall(r'\[([^\]]*)\]', out)]
@@ -64,7 +75,8 @@ def split_payloads(jobs, parts):
 
 def run_jobs(ctx, jobs):
     res = []
-    for o in fw.run_workers_parallel(ctx, 'devices', split_payloads(jobs, fw.NCPU * 2)):
+    weight = sum(j['hi'] - j['lo'] if j['kind'] == 'pack_range' else 10 for j in jobs)      # keep the number of interpreter start-ups small
+    for o in fw.run_workers_parallel(ctx, 'devices', split_payloads(jobs, min(fw.NCPU * 2, 1 + weight // 5000))):
         res += o
     return res
 
@@ -112,8 +124,8 @@ PACK_SHOW = ('(fun c => let \'(_, nv, _, _) := c in [obs_code (get_answer (bits_
 
 def campaign_pack(ctx):
     rng = ctx.rng
-    exh = {0: 16, 3: 16, 2: ctx.n(13, 16), 1: ctx.n(10, 16)}            # exhaustive up to this many bits, per device
-    nrand = ctx.n(250, 4000)
+    exh = {0: 16, 3: ctx.n(14, 16), 2: ctx.n(12, 16), 1: ctx.n(10, 16)}  # exhaustive up to this many bits, per device
+    nrand = ctx.n(150, 1000)
     jobs = []
     for dev in (0, 3, 2, 1):
         for n in range(exh[dev] + 1):
@@ -151,10 +163,9 @@ def campaign_pack(ctx):
         else:
             large.append(i)
     oks = [None] * len(keys)
-    h63 = 'From Coq Require Import Uint63.\n' + HEADER + 'Local Open Scope uint63_scope.\n'
-    for i, ok in zip(small, fw.coq_eval_shards(ctx, 'pack_short', h63, packed, 'check_pack63', shard=8192)):
+    for i, ok in zip(small, fw.coq_eval_shards(ctx, 'pack_short', H63, packed, 'check_pack63', shard=8192)):
         oks[i] = ok
-    for i, ok in zip(large, fw.coq_eval_shards(ctx, 'pack_long', HEADER, [pack_term(*keys[i]) for i in large], 'check_pack', shard=40)):
+    for i, ok in zip(large, fw.coq_eval_shards(ctx, 'pack_long', HEADER, [pack_term(*keys[i]) for i in large], 'check_pack', shard=ctx.n(100, 60))):
         oks[i] = ok
     bad = sorted((i for i, ok in enumerate(oks) if ok is False), key=lambda i: keys[i][1])
     seen = {}
@@ -236,7 +247,7 @@ def first_difference(ops, obs, required_codes):
 def campaign_fixed(ctx):
     rng = ctx.rng
     jobs, tags = [], []
-    for _ in range(ctx.n(1500, 20000)):
+    for _ in range(ctx.n(1500, 10000)):
         data = gen_bytes(rng)
         t = []
         jobs.append({'kind': 'trace', 'dev': 'fixed', 'input': bytes(data).hex(), 'ops': gen_ops(rng, data, t)})
@@ -251,7 +262,8 @@ def campaign_fixed(ctx):
         ctx.hist('fixed_input_bytes', '0' if not data else '1-3' if len(data) < 4 else '4-24')
         trace_stats(ctx, 'FixedIO', j['ops'], r['obs'])
     ctx.sample({'device': 'FixedIO', 'input': jobs[0]['input'], 'ops': jobs[0]['ops'][:40], 'answers': [show_obs(o) for o in res[0]['obs'][:40]]})
-    oks = fw.coq_eval_shards(ctx, 'fixed', HEADER, terms, 'check_fixed', shard=150)
+    fast = [f'({ilist(bytes.fromhex(j["input"]))},{ilist(j["ops"])},{obs63(r["obs"])})' for j, r in zip(jobs, res)]
+    oks = fw.coq_eval_shards(ctx, 'fixed', H63, fast, 'check_fixed63', shard=150)
     bad = sorted((i for i, ok in enumerate(oks) if ok is False), key=lambda i: len(jobs[i]['ops']) + len(jobs[i]['input']))
     for k, i in enumerate(bad[:MAX_DIAG]):
         triage(ctx, 'fixed-trace', 'FixedIO', terms[i], '(fun c => codes_eqb (model_fixed c) (snd c))', '(fun c => codes_eqb (spec_fixed c) (snd c))',
@@ -264,7 +276,7 @@ def campaign_fixed(ctx):
 def campaign_standard(ctx):
     rng = ctx.rng
     jobs = []
-    for _ in range(ctx.n(800, 10000)):
+    for _ in range(ctx.n(800, 5000)):
         data = gen_bytes(rng)
         jobs.append({'kind': 'trace', 'dev': 'standard', 'verbose': rng.random() < 0.6, 'stdin': data, 'ops': gen_ops(rng, data, [])})
     res = run_jobs(ctx, jobs)
@@ -275,7 +287,8 @@ def campaign_standard(ctx):
         ctx.count(('standard', j['verbose'], tuple(j['stdin']), tuple(j['ops'])), bool(j['ops']))
         ctx.hist('standard_verbose', j['verbose'])
         trace_stats(ctx, 'StandardIO', j['ops'], r['obs'])
-    oks = fw.coq_eval_shards(ctx, 'standard', HEADER, terms, 'check_standard', shard=150)
+    fast = [f'({blit(j["verbose"])},{ilist(j["stdin"])},{ilist(j["ops"])},{obs63(r["obs"])},{ilist(r["stdout"])})' for j, r in zip(jobs, res)]
+    oks = fw.coq_eval_shards(ctx, 'standard', H63, fast, 'check_standard63', shard=150)
     bad = sorted((i for i, ok in enumerate(oks) if ok is False), key=lambda i: len(jobs[i]['ops']) + len(jobs[i]['stdin']))
     for k, i in enumerate(bad[:MAX_DIAG]):
         j, r = jobs[i], res[i]
@@ -327,7 +340,7 @@ def kb_stats(ctx, evs, ops):
 def campaign_kbd(ctx):
     rng = ctx.rng
     jobs = []
-    for _ in range(ctx.n(1200, 15000)):
+    for _ in range(ctx.n(1200, 8000)):
         evs = gen_events(rng)
         jobs.append({'kind': 'trace', 'dev': 'kbd', 'events': evs, 'ops': gen_kb_ops(rng, evs)})
     res = run_jobs(ctx, jobs)
@@ -340,7 +353,8 @@ def campaign_kbd(ctx):
     pick = next((i for i, j in enumerate(jobs) if len(j['events']) >= 2 and len(j['ops']) >= 16), 0)
     ctx.sample({'device': 'KeyboardIO', 'events': jobs[pick]['events'], 'ops': jobs[pick]['ops'][:40],
                 'answers': [show_obs(o) for o in res[pick]['obs'][:40]]})
-    oks = fw.coq_eval_shards(ctx, 'kbd', HEADER, terms, 'check_kbd', shard=120)
+    fast = [f'({events_lit(j["events"])},{ilist(j["ops"])},{obs63(r["obs"])})' for j, r in zip(jobs, res)]
+    oks = fw.coq_eval_shards(ctx, 'kbd', H63, fast, 'check_kbd63', shard=120)
     bad = sorted((i for i, ok in enumerate(oks) if ok is False), key=lambda i: len(jobs[i]['ops']) + 4 * len(jobs[i]['events']))
     for k, i in enumerate(bad[:MAX_DIAG]):
         triage(ctx, 'keyboard-events', 'KeyboardIO', terms[i], '(fun c => codes_eqb (model_kbd c) (snd c))', '(fun c => codes_eqb (spec_kbd c) (snd c))',
@@ -443,18 +457,19 @@ def gen_script(rng):
 def campaign_script(ctx):
     rng = ctx.rng
     jobs, gens = [], []
-    for _ in range(ctx.n(1500, 20000)):
+    for _ in range(ctx.n(1500, 10000)):
         text, evs, tags = gen_script(rng)
         ops = gen_kb_ops(rng, evs or [])
         jobs.append({'kind': 'trace', 'dev': 'script', 'text': [ord(c) for c in text], 'ops': ops, 'text_repr': repr(text)})
         gens.append((evs, tags))
     res = run_jobs(ctx, jobs)
-    terms = []
+    terms, fast = [], []
     for j, r, (evs, tags) in zip(jobs, res, gens):
         ctor = r['ctor']
         cc = 0 if ctor == 0 else (15 if ctor[0] == 'x' else 16 * ctor[0] + ctor[1])
         gen = 'None' if evs is None else f'(Some {events_lit(evs)})'
         terms.append(f'({fw.nlist(j["text"])},{gen},{fw.nlist(j["ops"])},{cc},{fw.nlist([obs_code(o) for o in r["obs"]])})')
+        fast.append(f'({ilist(j["text"])},{gen},{ilist(j["ops"])},{cc},{obs63(r["obs"])})')
         ctx.count(('script', j['text_repr'], tuple(j['ops'])), bool(j['text']))
         ctx.hist('script_result', 'constructed' if ctor == 0 else 'unexpected' if ctor[0] == 'x' else
                  {1: 'error:not-three-fields', 2: 'error:bad-down/up', 3: 'error:bad-number', 4: 'error:keycode-not-a-byte'}[ctor[1]])
@@ -468,7 +483,7 @@ def campaign_script(ctx):
     pick = next((i for i, r in enumerate(res) if r['ctor'] != 0), None)
     if pick is not None:
         ctx.sample({'device': 'ScriptedKeyEventSource.from_text', 'text': jobs[pick]['text_repr'], 'IODeviceException [line, kind]': res[pick]['ctor']})
-    oks = fw.coq_eval_shards(ctx, 'script', HEADER, terms, 'check_script', shard=120)
+    oks = fw.coq_eval_shards(ctx, 'script', H63, fast, 'check_script63', shard=120)
     bad = sorted((i for i, ok in enumerate(oks) if ok is False), key=lambda i: len(jobs[i]['ops']) + len(jobs[i]['text']))
     for k, i in enumerate(bad[:MAX_DIAG]):
         evs = gens[i][0]
@@ -491,7 +506,8 @@ def campaign_broken(ctx):
     for j, r in zip(jobs, res):
         ctx.count(('broken', tuple(j['ops'])), True)
         trace_stats(ctx, 'BrokenIO', j['ops'], r['obs'])
-    oks = fw.coq_eval_shards(ctx, 'broken', HEADER, terms, 'check_broken', shard=400)
+    fast = [f'({ilist(j["ops"])},{ilist(obs_code(o) for o in r["obs"])})' for j, r in zip(jobs, res)]
+    oks = fw.coq_eval_shards(ctx, 'broken', H63, fast, 'check_broken63', shard=400)
     bad = sorted((i for i, ok in enumerate(oks) if ok is False), key=lambda i: len(jobs[i]['ops']))
     for k, i in enumerate(bad[:MAX_DIAG]):
         triage(ctx, 'broken', 'BrokenIO', terms[i], '(fun c => codes_eqb (map obs_code (br_run (map op_of_code (fst c)))) (snd c))',
@@ -512,7 +528,7 @@ def run(ctx):
     campaign_broken(ctx)
     ctx.coverage['rule'] = (
         'real classes of the repo driven call by call, every answer compared in Coq with Model/Devices.v and with Spec/IOSpec.v: '
-        '(1) every bit sequence of 0..16 bits (FixedIO, KeyboardIO; StandardIO up to the length listed) and random ones up to 600 (thorough 3000) bits '
+        '(1) every bit sequence of 0..16 bits for FixedIO (the other devices up to the lengths listed under exhaustive_bit_sequences; 16 in the thorough tier) and random ones up to 600 (thorough 3000) bits '
         'written, then get_output with both flags; (2) random input byte strings x read/write/get_output interleavings incl. reading past EOF and echoing '
         'the input (FixedIO, StandardIO with stdin/stdout replaced by StringIO, stdin characters < 256); (3) KeyboardIO over random event lists '
         '(ties, unordered, negative and far tics) and over generated script texts (comments, blank lines, 8 kinds of line break, number spellings of int(x,0), '
